@@ -2,6 +2,7 @@
 package c07
 
 import (
+	"errors"
 	"fmt"
 	"math/rand"
 	"os"
@@ -41,6 +42,8 @@ type Desc struct {
 	// OnClose: the driver carries on-close hooks (generic and network level) that write "exit" and a
 	// return to the channel, as the shipped platform definitions do.
 	OnClose bool `json:"on_close,omitempty"`
+	// OnCloseFails: the on-close hooks return an error after doing their writes.
+	OnCloseFails bool `json:"on_close_fails,omitempty"`
 	// OpenFails: the transport refuses the connection this many times before the open that succeeds
 	// (the caller retries Open on the same driver object).
 	OpenFails int `json:"open_fails,omitempty"`
@@ -58,12 +61,12 @@ type Desc struct {
 
 var states = []string{
 	"idle-blocked", "idle-cycling", "peer-closed-unnoticed", "peer-closed-racing", "peer-closed-consumed",
-	"err-parked", "err-consumed", "data-arriving", "error-arriving", "op-in-flight", "second-close", "concurrent-close",
+	"err-parked", "err-consumed", "err-persisting-ops", "data-arriving", "error-arriving", "op-in-flight", "second-close", "concurrent-close",
 	"op-blocked-in-write",
 }
 
 var concurrentStates = map[string]bool{"peer-closed-racing": true, "data-arriving": true, "error-arriving": true, "op-in-flight": true,
-	"concurrent-close": true, "err-parked": true, "err-consumed": true, "idle-cycling": true, "op-blocked-in-write": true}
+	"concurrent-close": true, "err-parked": true, "err-consumed": true, "err-persisting-ops": true, "idle-cycling": true, "op-blocked-in-write": true}
 
 var points = map[string][]string{
 	"R":   {"chan.read.top", "chan.read.before-transport-read", "chan.read.after-transport-read", "chan.read.before-errs-send", "chan.read.exit"},
@@ -221,12 +224,24 @@ func runClose(d Desc) mon.Result {
 			if err := g.Channel.Write([]byte("exit"), false); err != nil {
 				return err
 			}
-			return g.Channel.WriteReturn()
+			if err := g.Channel.WriteReturn(); err != nil {
+				return err
+			}
+			if d.OnCloseFails {
+				return errors.New("on-close hook failed for a reason of its own")
+			}
+			return nil
 		}))
 		if d.Driver == "network" {
 			extra = append(extra, options.WithNetworkOnClose(func(n *network.Driver) error {
 				onCloseRan.Add(1)
-				return n.Channel.WriteReturn()
+				if err := n.Channel.WriteReturn(); err != nil {
+					return err
+				}
+				if d.OnCloseFails {
+					return errors.New("network on-close hook failed for a reason of its own")
+				}
+				return nil
 			}))
 		}
 	}
@@ -311,6 +326,17 @@ func runClose(d Desc) mon.Result {
 			return mon.Result{Verdict: mon.Inconclusive, Detail: "reader did not reach the error"}
 		}
 		time.Sleep(2 * time.Millisecond)
+	case "err-persisting-ops":
+		// the transport keeps failing while a series of operations runs: every one of them reads
+		// the shared error state that the read loop keeps updating
+		s.Conn.SetFault(devsim.FaultErr, gen)
+		if !waitReadErr() {
+			return mon.Result{Verdict: mon.Inconclusive, Detail: "reader did not reach the error"}
+		}
+		for i := 0; i < 12; i++ {
+			later()
+			time.Sleep(time.Duration(d.ReadDelay+50) * time.Microsecond)
+		}
 	case "err-consumed":
 		s.Conn.SetFault(devsim.FaultErr, gen)
 		if !waitReadErr() {
@@ -471,6 +497,9 @@ func runClose(d Desc) mon.Result {
 	if d.OpenFails > 0 {
 		obs["closes_after_refused_then_retried_open"]++
 	}
+	if d.OnCloseFails {
+		obs["closes_with_failing_on_close_hooks"]++
+	}
 	tags := []string{"driver=" + d.Driver, "state=" + d.State, "close=" + d.CloseB, fmt.Sprintf("readdelay=%d", d.ReadDelay), "order:" + sig}
 	if d.A != "" {
 		if cst.infeasible {
@@ -545,7 +574,7 @@ func gen(tier string, seed int64) []mon.Case {
 	n := 0
 	add := func(d Desc) {
 		d.Seed = seed*100003 + int64(n)
-		cs = append(cs, mon.MkCase(fmt.Sprintf("c07/%05d-%s-%s-%s-rd%d%s%s", n, d.Driver, d.State, d.CloseB, d.ReadDelay, map[bool]string{true: "-alive"}[d.AliveTracks], map[bool]string{true: fmt.Sprintf("-refused%d", d.OpenFails)}[d.OpenFails > 0]), d))
+		cs = append(cs, mon.MkCase(fmt.Sprintf("c07/%05d-%s-%s-%s-rd%d%s%s", n, d.Driver, d.State, d.CloseB, d.ReadDelay, map[bool]string{true: "-alive"}[d.AliveTracks], map[bool]string{true: fmt.Sprintf("-refused%d", d.OpenFails)}[d.OpenFails > 0]+map[bool]string{true: "-hookfails"}[d.OnCloseFails]), d))
 		n++
 	}
 	drivers := []string{"generic", "network", "netconf"}
@@ -562,6 +591,10 @@ func gen(tier string, seed int64) []mon.Case {
 					// says nothing about Close (recorded as an observation in DESIGN.md)
 					if dr != "netconf" && rd == 250 && st != "op-blocked-in-write" {
 						add(Desc{Kind: "close", Driver: dr, State: st, CloseB: cb, ReadDelay: rd, OnClose: true})
+						if cb != "blocked" && (st == "idle-blocked" || st == "peer-closed-unnoticed" || st == "err-parked" || st == "second-close" || st == "op-in-flight") {
+							// a hook that fails must not keep Close from closing
+							add(Desc{Kind: "close", Driver: dr, State: st, CloseB: cb, ReadDelay: rd, OnClose: true, OnCloseFails: true})
+						}
 					}
 					if rd == 250 && cb != "blocked" && (st == "idle-blocked" || st == "peer-closed-unnoticed" || st == "err-parked" || st == "op-in-flight" || st == "second-close") {
 						// "after a successful open" that was preceded by refused attempts on the same object
